@@ -252,6 +252,10 @@ func c07Strata() []*gast.Grammar {
 		mk(r("A", gast.Rec(gast.Ref("B"), gast.Ref("R"), "L1")), r("B", gast.S(gast.L("x"), gast.Ref("C"))), r("C", gast.Thr("L1")), r("R", gast.Ref("C"))),
 		mk(r("Stmt", gast.Rec(gast.S(gast.Ref("Expr"), gast.L(";")), gast.Ref("Resync"), "L1")), r("Expr", gast.C(gast.Plus(gast.Cl(gast.Chars("01"))), gast.Thr("L1"))),
 			r("Resync", gast.S(gast.Star(gast.Cl(&gast.ClassSpec{Chars: []rune(";01"), Inverted: true})), gast.Ref("Stmt")))),
+		// the operand of a lookahead starts with a nullable rule / group and then calls the rule itself
+		mk(r("Item", gast.S(gast.NotE(gast.S(gast.Ref("Indent"), gast.Ref("Item"))), gast.Ref("Word"))), r("Indent", gast.Star(gast.L(" "))), r("Word", gast.Plus(gast.Cl(gast.Chars("ab"))))),
+		mk(r("Item", gast.S(gast.AndE(gast.S(gast.C(gast.L("x"), gast.L("")), gast.Opt(gast.L("y")), gast.Ref("Item"))), gast.Ref("Word"))), r("Word", gast.Plus(gast.Cl(gast.Chars("ab"))))),
+		mk(r("Args", gast.C(gast.S(gast.L(""), gast.Ref("Args"), gast.L(","), gast.Ref("Arg")), gast.Ref("Arg"))), r("Arg", gast.Cl(gast.Chars("ab")))),
 		// a throw that is not the last item of its sequence, recovered by an expression that can match
 		// the empty string: the rule is re-entered at the same offset
 		mk(r("Start", gast.Rec(gast.Ref("List"), gast.Ref("Junk"), "L1")), r("List", gast.C(gast.S(gast.Ref("Item"), gast.Ref("List")), gast.NotE(gast.Dot()), gast.S(gast.Thr("L1"), gast.Ref("List")))),
